@@ -13,6 +13,11 @@ import vlib
 AREA = "aspenkv"
 HARNESS = ["zz_verif_kv_test.go"]
 WINDOWS = ["RecoveryUnchecked", "VolatileStore", "StaleFeedback", "MultiLease", "PrematureRemoval"]
+# windows the masked runs do not step into. "StaleFeedback" is no longer one of them: store.go was
+# repaired (a recovered mark only replaces the store entry of the same operation) and the model
+# follows; the as-was behaviour is the deviation switch "StaleFeedbackOverwrite" of AspenKV.tla.
+MASKED = [w for w in WINDOWS if w != "StaleFeedback"]
+ASWAS_STALEFB = ["StaleFeedbackOverwrite"]
 
 C06_KINDS = {"engine", "value", "order", "regress", "diverged"}
 C13_KINDS = {"notify-raw", "notify-p", "notify-f", "txlh", "incomplete", "dup", "stale", "unstored", "missed",
@@ -31,7 +36,7 @@ def nset(xs):
 # ------------------------------------------------------------------ design checks (TLC on AspenKV)
 
 def mc_cfg(nodes, keys, maxver, maxnet, faults, restarts, subs=False, lag=False, ackafter=False,
-           masked=WINDOWS, thr=1):
+           masked=MASKED, thr=1, deviations=(), extra_inv=""):
     return """SPECIFICATION Spec
 CONSTANTS
   Node = %s
@@ -45,12 +50,14 @@ CONSTANTS
   AllowLag = %s
   AckAfter = %s
   Masked = %s
+  Deviations = %s
 CONSTRAINT NetBound
-INVARIANTS TypeOK OrderIndependence SameSetSameState QuiescentConverged LeaseVersions AtMostOnce NeverStale CompleteWhileKeepingUp HostFilterExact
+INVARIANTS TypeOK OrderIndependence SameSetSameState QuiescentConverged LeaseVersions AtMostOnce NeverStale CompleteWhileKeepingUp HostFilterExact %s
 PROPERTIES NoRegress
 CHECK_DEADLOCK FALSE
 """ % (nset(nodes), tset(keys), maxver, thr, maxnet, faults, restarts,
-       "TRUE" if subs else "FALSE", "TRUE" if lag else "FALSE", "TRUE" if ackafter else "FALSE", tset(masked))
+       "TRUE" if subs else "FALSE", "TRUE" if lag else "FALSE", "TRUE" if ackafter else "FALSE", tset(masked),
+       tset(deviations), extra_inv)
 
 
 def design_runs(tier, want):
@@ -63,9 +70,14 @@ def design_runs(tier, want):
             runs.append(("m2n1k3v", dict(nodes=[1, 2], keys=["k1"], maxver=3, maxnet=2, faults=1, restarts=1), None))
             runs.append(("m3n1k", dict(nodes=[1, 2, 3], keys=["k1"], maxver=1, maxnet=2, faults=0, restarts=1), None))
         # every named window is real at design level: un-masking it must break an invariant
-        un = lambda ws: [w for w in WINDOWS if w not in ws]
+        un = lambda ws: [w for w in MASKED if w not in ws]
         runs.append(("w_volatile", dict(nodes=[1, 2], keys=["k1"], maxver=2, maxnet=2, faults=0, restarts=1, masked=un(["VolatileStore"])), "VolatileStore"))
-        runs.append(("w_stalefb", dict(nodes=[1, 2], keys=["k1"], maxver=2, maxnet=2, faults=0, restarts=0, masked=un(["StaleFeedback"])), "StaleFeedback"))
+        # self-test of the repaired model: (1) the situation the repair is about - a mark reaching the
+        # threshold over a different, newer store entry - is reachable in the masked runs (the probe
+        # invariant NoStaleHit must be reported violated); (2) with the as-was deviation switched back
+        # on, the same environment still produces the stale-feedback counterexample
+        runs.append(("v_stalehit", dict(nodes=[1, 2], keys=["k1"], maxver=2, maxnet=2, faults=0, restarts=0, extra_inv="NoStaleHit"), "probe:NoStaleHit"))
+        runs.append(("w_stalefb_aswas", dict(nodes=[1, 2], keys=["k1"], maxver=2, maxnet=2, faults=0, restarts=0, deviations=ASWAS_STALEFB), "StaleFeedback"))
         runs.append(("w_multilease", dict(nodes=[1, 2], keys=["k1"], maxver=2, maxnet=1, faults=0, restarts=0, masked=un(["MultiLease"])), "MultiLease"))
         runs.append(("w_recovery", dict(nodes=[1, 2, 3], keys=["k1"], maxver=2, maxnet=1, faults=0, restarts=1, masked=un(["RecoveryUnchecked"])), "RecoveryUnchecked"))
         runs.append(("w_premature", dict(nodes=[1, 2, 3], keys=["k1"], maxver=1, maxnet=2, faults=0, restarts=0, masked=un(["PrematureRemoval"])), "PrematureRemoval"))
@@ -93,6 +105,8 @@ def run_design(ctx, want):
             ctx.notes.append("design: %s violated in masked config %s" % (r.violated, tag))
         if expect is not None and not r.violated:
             ctx.notes.append("design: un-masking %s did not break any invariant in %s" % (expect, tag))
+        if expect is not None and expect.startswith("probe:") and r.violated != expect[6:]:
+            ctx.notes.append("design: masked config: probe %s not reached (%s) in %s" % (expect[6:], r.violated, tag))
     return states, trans, design
 
 
@@ -279,11 +293,6 @@ WINDOW_SCRIPTS = [
      {"nodes": 2, "keys": ["k1"], "steps": [
          {"a": "write", "n": 2, "k": "k1", "var": "set"}, {"a": "crash", "n": 2}, {"a": "restart", "n": 2},
          {"a": "quiesce"}]}),
-    ("w-stale-feedback", "StaleFeedback", "diverged",
-     {"nodes": 2, "keys": ["k1"], "steps": [
-         {"a": "write", "n": 1, "k": "k1", "var": "set"}, ex(1, 2), ex(1, 2), ex(1, 2), ex(1, 2),
-         dfb(2, 1), dfb(2, 1), {"a": "write", "n": 1, "k": "k1", "var": "set"}, dfb(2, 1),
-         {"a": "quiesce"}]}),
     ("w-recovery-tie", "RecoveryUnchecked", "regress",
      {"nodes": 2, "keys": ["k1"], "steps": [
          {"a": "write", "n": 1, "k": "k1", "var": "set"}, {"a": "write", "n": 2, "k": "k1", "var": "set"},
@@ -309,6 +318,18 @@ SIR_12 = [ex(1, 2), ex(1, 2), dfb(2, 1), ex(1, 2), dfb(2, 1), ex(1, 2), dfb(2, 1
 
 # directed, deterministic scenarios that must hold (no window): mutation-sensitive regressions
 HOLD_SCRIPTS = [
+    # formerly the StaleFeedback window script (store.go repaired since): the third feedback for
+    # version 1 reaches the threshold after version 2 was written; the mark must NOT un-infect
+    # version 2 and the cluster must quiesce converged. On an unrepaired tree it quiesces diverged
+    # and is reported under WINDOW_SIG["StaleFeedback"] (taint "stalefb").
+    ("d-stale-feedback", {"nodes": 2, "keys": ["k1"], "steps": [
+        {"a": "write", "n": 1, "k": "k1", "var": "set"}, ex(1, 2), ex(1, 2), ex(1, 2), ex(1, 2),
+        dfb(2, 1), dfb(2, 1), {"a": "write", "n": 1, "k": "k1", "var": "set"}, dfb(2, 1),
+        {"a": "quiesce"}]}),
+    ("d-stale-feedback-3", {"nodes": 3, "keys": ["k1"], "steps": [
+        {"a": "write", "n": 1, "k": "k1", "var": "set"}, ex(1, 2), ex(1, 2), ex(1, 2), ex(1, 2),
+        dfb(2, 1), dfb(2, 1), {"a": "write", "n": 1, "k": "k1", "var": "del"}, dfb(2, 1),
+        {"a": "quiesce"}]}),
     ("d-overwrite-fb", {"nodes": 2, "keys": ["k1", "k2"], "steps": [
         {"a": "sub", "n": 1, "s": "p"}, {"a": "sub", "n": 2, "s": "p"}, {"a": "sub", "n": 2, "s": "f"}, {"a": "sub", "n": 1, "s": "f"},
         {"a": "write", "n": 1, "k": "k1", "var": "set"}, ex(1, 2), ex(1, 2), dfb(2, 1),
@@ -395,6 +416,7 @@ CONSTANTS
   AllowLag = FALSE
   AckAfter = TRUE
   Masked = {}
+  Deviations = %s
 CONSTRAINT Mark
 INVARIANTS OrderIndependence SameSetSameState TQuiescentConverged LeaseVersions AtMostOnce NeverStale CompleteWhileKeepingUp HostFilterExact
 PROPERTIES TNoRegress
@@ -403,8 +425,9 @@ CHECK_DEADLOCK FALSE
 """
 
 
-def validate_traces(ctx, scen, tag):
-    """One TLC run over the concatenation. Returns dict(ok, violated, hw, bad_index, spans)."""
+def validate_traces(ctx, scen, tag, deviations=()):
+    """One TLC run over the concatenation. Returns dict(ok, violated, hw, bad_index, spans).
+    deviations: as-was behaviours of AspenKV.tla switched on (default: the code as repaired)."""
     lines = []
     spans = []
     for s in scen:
@@ -419,7 +442,7 @@ def validate_traces(ctx, scen, tag):
         mod = f.read()
     mod = mod.replace("MODULE AspenKVTrace", "MODULE " + modname).replace('"trace.ndjson"', '"%s"' % name)
     r = ctx.tlc(AREA, modname, "trace_%s.cfg" % tag,
-                files={name: "\n".join(lines) + "\n", "trace_%s.cfg" % tag: TRACE_CFG, modname + ".tla": mod},
+                files={name: "\n".join(lines) + "\n", "trace_%s.cfg" % tag: TRACE_CFG % tset(deviations), modname + ".tla": mod},
                 workers=1, deque=True, tag="tv_" + tag, timeout=1500, expect_violation=True)
     hw = None
     for b in r.tagged("HW"):
@@ -472,6 +495,11 @@ def judge_cluster(ctx, want, scen, windows=False):
         nbad += 1
         v = vs[0]
         sig = "%s cluster %s at %s" % (want, v["kind"], v["ev"])
+        taints = (v.get("taint") or "").split(",")
+        if want == "C06" and v["kind"] == "diverged" and ("stalefb:" + v.get("key", "")) in taints:
+            # a recovered mark for an old version reached the threshold over the key's newer operation
+            # earlier in this scenario, and the cluster then quiesced diverged: the as-was store.go
+            sig = WINDOW_SIG["StaleFeedback"]
         ctx.report(sig, "real %d-node cluster, scenario %s: %s" % (s["nodes"], s["id"], v["what"]),
                    {"layer": "cluster", "scenario": s["id"], "seed": s.get("seed"), "masked": s.get("masked"),
                     "nodes": s["nodes"], "keys": s["keys"], "violations": vs[:5],
@@ -555,6 +583,16 @@ def run_cluster_layer(ctx, want):
             elif prop == want:
                 ctx.report("%s cluster trace violates %s" % (want, inv),
                            "scenario %s: the behaviour of the real nodes, matched step by step by AspenKVTrace, violates %s at event %s" % (s["id"], inv, tv.get("offset")),
+                           {"layer": "cluster", "scenario": s["id"], "seed": s.get("seed"), "trace": s["trace"][: (tv.get("offset") or 0) + 1]})
+        elif not direct and "stalefb" in (s.get("taints") or []) and \
+                (lambda t2: t2["ok"] or t2["violated"])(validate_traces(ctx, [s], "aswas_%s" % s["id"].replace("-", "_"), deviations=ASWAS_STALEFB)):
+            # not a behaviour of the repaired model, but one of the as-was model: on this tree a recovered
+            # mark for an old version still replaces the store entry of the key's newer operation, which
+            # stops being gossiped (whether this schedule then diverges depends on who else holds it)
+            if want == "C06":
+                ctx.report(WINDOW_SIG["StaleFeedback"] + " (store entry replaced; trace only explained by the as-was model)",
+                           "scenario %s: after a feedback for an old version reached the threshold, the node stopped gossiping the key's "
+                           "newer, never fed-back operation (event %s)" % (s["id"], tv.get("offset")),
                            {"layer": "cluster", "scenario": s["id"], "seed": s.get("seed"), "trace": s["trace"][: (tv.get("offset") or 0) + 1]})
         elif not direct:
             raise vlib.Inconclusive("trace of scenario %s is not a behaviour of AspenKV (event %s: %s) although no property-level "
